@@ -111,6 +111,12 @@ var leakOps = map[string]leakOp{
 	"TakeUntilInterval": {func(s ro.Observable[int], r *Recorder) ro.Subscription {
 		return subAny(ro.TakeUntil[int](ro.Interval(time.Hour))(s), r)
 	}, true},
+	// an asynchronous OUTER source (the library's own ticker goroutine) whose value is projected to an inner source that never
+	// ends: ConcatAll keeps that goroutine inside the delivery of the outer value until the inner subscription is over - and an
+	// external Unsubscribe ends it without any terminal reaching the inner observer
+	"FlatMapInterval": {func(_ ro.Observable[int], r *Recorder) ro.Subscription {
+		return subAny(ro.FlatMap(func(v int64) ro.Observable[int] { return neverInt() })(ro.Interval(time.Millisecond)), r)
+	}, false},
 	"MergeWithInterval": {func(s ro.Observable[int], r *Recorder) ro.Subscription {
 		return subAny(ro.MergeWith(ro.Map(func(v int64) int { return int(v) })(ro.Interval(time.Millisecond)))(s), r)
 	}, true},
